@@ -112,3 +112,14 @@ Theorem join_k_complete : forall wt water lim r exc nf ls p, ls <> [] ->
   (In p (joins wt water lim nf true ls) <-> Digest_product wt water lim r exc nf (concat ls) p).
 Proof. exact join_k_spec_lemma. Qed.
 Print Assumptions join_k_complete.
+
+(* ---- bubble creation, completeness half (Model/AbsGraph.add_bubbles; the full language theorem is
+   add_bubbles_lang in Props/C02.v): the reference and every haplotype of Spec.haplotypes -- strict (the obliged
+   ones) or permissive -- is spelled by a path of the bubble graph, labelled with exactly its records *)
+From MoPep Require Import Proofs.BubbleProofs.
+Theorem add_bubbles_complete : forall ref vs, bb_wf ref vs = true -> bb_sorted vs = true ->
+  In (ref, []) (lang (add_bubbles ref vs) 0) /\
+  forall strict h, In h (haplotypes strict vs) ->
+    exists m, h = select m vs /\ In (apply_hap ref h, ids_of_mask 0 m) (lang (add_bubbles ref vs) 0).
+Proof. exact add_bubbles_complete_lemma. Qed.
+Print Assumptions add_bubbles_complete.
